@@ -905,7 +905,17 @@ func synthGroup() (*assetsGroup, func(), error) {
 			"exits": []M{{"uuid": exitUUID(9, 1, 1), "destination_uuid": nodeUUID(9, 2)}}},
 		{"uuid": nodeUUID(9, 2), "actions": []M{
 			{"uuid": actionUUID(9, 2, 1), "type": "set_contact_field", "field": M{"key": "joined", "name": "Joined"}, "value": "03-04-2022"},
-			{"uuid": actionUUID(9, 2, 2), "type": "send_msg", "text": "@(json(foreach(contact.groups, (g) => g.name))) @webhook @webhook.json @(json(legacy_extra)) @trigger.params.vip @(json(trigger.params))"}}, "exits": exitsFor(9, 2, 0)}}}
+			{"uuid": actionUUID(9, 2, 2), "type": "send_msg", "text": "@(json(foreach(contact.groups, (g) => g.name))) @webhook @webhook.json @(json(legacy_extra)) @trigger.params.vip @(json(trigger.params))",
+				"quick_replies": []string{"Yes", "No"}}}, "exits": exitsFor(9, 2, 0)}},
+		// translations into the contacts' language of the kinds the editor leaves behind: nothing at all ([]), an empty text
+		// ([""]), and real ones - every session looks all of them up in the one shared definition
+		"localization": M{"fra": M{
+			actionUUID(9, 1, 4):       M{"text": []string{""}},
+			actionUUID(9, 2, 2):       M{"text": []string{}, "quick_replies": []string{""}},
+			string(catUUID(9, 1, 1)):  M{"name": []string{""}},
+			string(caseUUID(9, 1, 1)): M{"arguments": []string{}},
+			string(caseUUID(9, 1, 2)): M{"arguments": []string{"7"}},
+		}}}
 	a := M{"flows": []M{flow}, "groups": groups,
 		"fields":   []M{{"uuid": "f1b5aea6-6586-41c7-9020-1a6326cc6571", "key": "joined", "name": "Joined", "type": "datetime"}, {"uuid": "f1b5aea6-6586-41c7-9020-1a6326cc6572", "key": "age", "name": "Age", "type": "number"}},
 		"channels": []M{{"uuid": chanA, "name": "A", "address": "+17036975131", "schemes": []string{"tel"}, "roles": []string{"send", "receive"}, "country": "US"}}}
@@ -918,10 +928,11 @@ func synthGroup() (*assetsGroup, func(), error) {
 	f.Close()
 	g := &assetsGroup{path: f.Name(), data: data, flowUUIDs: []assets.FlowUUID{assets.FlowUUID(flowUUID(9))}, flowNames: []string{"Regroup"}}
 	for i, env := range []M{
-		{"date_format": "DD-MM-YYYY", "time_format": "tt:mm", "timezone": "UTC", "allowed_languages": []string{"eng"}},
-		{"date_format": "MM-DD-YYYY", "time_format": "tt:mm", "timezone": "America/Guayaquil", "allowed_languages": []string{"eng"}},
-		{"date_format": "YYYY-MM-DD", "time_format": "tt:mm", "timezone": "Pacific/Kiritimati", "allowed_languages": []string{"eng"}}} {
+		{"date_format": "DD-MM-YYYY", "time_format": "tt:mm", "timezone": "UTC", "allowed_languages": []string{"eng", "fra"}},
+		{"date_format": "MM-DD-YYYY", "time_format": "tt:mm", "timezone": "America/Guayaquil", "allowed_languages": []string{"eng", "fra"}},
+		{"date_format": "YYYY-MM-DD", "time_format": "tt:mm", "timezone": "Pacific/Kiritimati", "allowed_languages": []string{"eng", "fra"}}} {
 		c := contactJSON()
+		c["language"] = "fra"
 		c["created_on"] = "2017-06-05T23:30:00Z"
 		c["urns"] = []string{"tel:+12065550001", "tel:+12065550002"}
 		// (the webhook answers with a bare JSON value; after the read-back @webhook is recreated from the saved extra)
